@@ -394,11 +394,12 @@ class SparselyBin(Factory, Container):
         # >>> np.divide(q,1,q)
         # >>> np.floor(q,q)
         q = np.array(q, dtype=np.float64)
-        neginfs = np.isneginf(q)
-        posinfs = np.isposinf(q)
 
         np.subtract(q, self.origin, q)
         np.divide(q, self.binWidth, q)
+        # saturate like bin(): infinities and finite values beyond the int64 range
+        neginfs = q <= LONG_MINUSINF
+        posinfs = q >= LONG_PLUSINF
         np.floor(q, q)
         q = np.array(q, dtype=np.int64)
         q[neginfs] = LONG_MINUSINF
